@@ -10,6 +10,8 @@ pub mod browse;
 pub mod c19;
 pub mod common;
 pub mod model;
+pub mod respond;
+pub mod txmodel;
 
 #[derive(Clone, Copy, Debug, PartialEq, Eq)]
 pub enum Tier {
@@ -83,7 +85,7 @@ pub trait Property: Sync + Send {
 }
 
 pub fn all() -> Vec<Box<dyn Property>> {
-    vec![Box::new(browse::C03), Box::new(browse::C04), Box::new(browse::C05), Box::new(c19::C19)]
+    vec![Box::new(browse::C03), Box::new(browse::C04), Box::new(browse::C05), Box::new(respond::C06), Box::new(respond::C07), Box::new(respond::C09), Box::new(c19::C19)]
 }
 
 pub fn by_id(id: &str) -> Option<Box<dyn Property>> {
